@@ -109,6 +109,8 @@ std::string one(Blocks& B, const std::string& tok) {
         b.add_address_event_count(ae, boost::none);
         return "ok";
     }
+    if (op == "st") { CDNS::BlockStatistics st; st.processed_messages = static_cast<uint32_t>(rec::U(a[2])); blk(a[1]).m_block_statistics = st; return "ok"; }
+    if (op == "gs") { auto& st = blk(a[1]).m_block_statistics; return st ? shownum(st->processed_messages) : std::string("none"); }
     if (op == "rq") { bool end = false; auto g = blk(a[1]).read_generic_qr(end); return end ? "end" : shownum(g.client_port); }
     if (op == "rm") { bool end = false; auto g = blk(a[1]).read_generic_mm(end); return end ? "end" : shownum(g.client_port); }
     if (op == "RA") {
